@@ -46,6 +46,10 @@ func skeletons(tier string, rng *rand.Rand) []string {
 	extra := []string{"$[?(1 < 2)]", "$[?($.a > 1)]", "$[?($.a < $.b)]", "$[?(@.max().max() == 1)]", "$[?(@.*.agg().agh() == 1)]", "$[?(@.agg().agh())]", "$[?($.agg().agg().agh() == 1)]", "$[?(@.a.f().agg().g() == 1)]", "$[?(@.a =~ /a.c/)]", "$['a\\'b']", "$[\"a\\\"b\"]",
 		"$.a\\.b", "$['\\u0041']", "$[?(@.a == 'x\\'y')]", "$[ 0 , 1 ]", "$[?( @.a == 1 )]", "$[1:2:3]", "$[::]", "$.*.*", "$..[?(@.a)]", "@.a", "a.b", "$[?(!@.a)]",
 		"$[?(@.a && (@.b || @.c))]", "$.a.f().g()", "$.*.agg().f()", "$[?(@.f() == 1)]", "$[?($.agg() == 1)]", "$[(1+1)]", "$[?(@.a == -1.5e+3)]"}
+	// paths that omit the leading `$` (bracket-, filter- or name-first), and regular
+	// expressions with escaped backslashes and slashes
+	extra = append(extra, "[?(@.a)]", "[?(!@.a)]", "[?(@.a == 1)].b", " [?(@)] ", "[?($[0].a == @.a)]", "[?(@[?(@.b)])]", "[*]", "*", "..a", "['a']", " a", " ['a'] ", " [0]", "[0][?(@.c)]",
+		`$[?(@.a=~/\\/)]`, `$[?(@.a =~ /x\\/ )]`, `$[?(@.a=~/x\\/y/)]`, `$[?(@.a=~/\\//)]`, `$[?(@.a=~/a\/b/)]`, `$[?(@.a=~/\d\//)]`, `$[?(@.a=~/[\\]/)]`, `$[?(@.a=~/\/)]`)
 	for _, e := range extra {
 		add(e)
 	}
@@ -136,13 +140,15 @@ func parseJobsN(harness, prefix string, tier string, seed int64, extra map[strin
 		for i := 0; i < len(s); i++ {
 			hs = append(hs, hole{s, []int{i}})
 		}
-		// concrete skeleton itself
-		hs = append(hs, hole{s, nil})
 	}
 	rng.Shuffle(len(hs), func(i, j int) { hs[i], hs[j] = hs[j], hs[i] })
 	n1 := nHoles
 	if len(hs) > n1 {
 		hs = hs[:n1]
+	}
+	// every skeleton as it is (no symbolic byte): not sampled
+	for _, s := range sk {
+		hs = append(hs, hole{s, nil})
 	}
 	if tier == "thorough" {
 		for k := 0; k < 6000; k++ {
@@ -268,6 +274,8 @@ func c16Keys() []string {
 		"$", "@", "*", "..", "[0]", "a,b", " ", "a]", "['a']", "?(x)", "a/b", "a\tb", "\x01", "ab\x7f", "\x1f", "a\nb",
 		"é", "aé", "日本", "𝄞", "a𝄞b", "-", "_", "a-b_c", "0", "007", "true", "null", "()", "f()", "a()", "a:b", "1:2", "a=~b", "&&", "||", "!a", "<", "a=='b'",
 		"\\u00e9", "\\ud834\\udd1e", "\\b", "\U0010ffff", "k\U0010ffff", "\uffff", "\U00010000", "\u007f", "\x0f", "a\x1fb", "\u00ff", "/", "\\/", "~", "`", "{", "}", "^", "#", "%", "a+b", ";",
+		// code points at the edges of the UTF-8 encoding lengths, of the surrogate gap and of the BMP; U+FFFD is what decoders substitute for ill-formed input
+		"\ufffd", "a\ufffdb", "\ufffc", "\ufffe", "\u0080", "\u07ff", "\u0800", "\ud7ff", "\ue000", "\ufeff",
 	}
 }
 
@@ -320,7 +328,7 @@ func init() {
 		Technique: "bounded symbolic execution of escaper -> real PEG parser -> the three unescape routines -> map lookup on keys with symbolic ASCII bytes (byte-class forks decided on exact domains, key equalities by z3); each spelling must return exactly the member's value",
 		Jobs:      c16Jobs,
 		Bounds: func(tier string) map[string]interface{} {
-			return map[string]interface{}{"keys": "66 tricky key skeletons (quotes, backslashes, escape-like text, control characters, symbols, non-ASCII, non-BMP, empty excluded by construction of the sibling) with 0 or 1 (thorough: 2) symbolic ASCII bytes at each position in turn; one near-miss sibling key per job",
+			return map[string]interface{}{"keys": "76 tricky key skeletons (quotes, backslashes, escape-like text, control characters, symbols, non-ASCII, non-BMP, empty excluded by construction of the sibling) with 0 or 1 (thorough: 2) symbolic ASCII bytes at each position in turn; one near-miss sibling key per job",
 				"positions": "at the root, below a name step, inside a filter operand (`..` is covered only with concrete keys through C01/C18: sorting keys with symbolic bytes is not modelled)",
 				"spellings": "['k'], [\"k\"] with JSON-style escaping; dot notation with every symbol character backslash-escaped, for non-empty keys without control characters"}
 		},
